@@ -76,6 +76,12 @@ Theorem C14_compassDirection_spec p0 p1 : distinct p0 p1 ->
 Proof. exact (compassDirection_spec p0 p1). Qed.
 Print Assumptions C14_compassDirection_spec.
 
+(* the code's contract (the `throw` for coincident points, translated as a recorded precondition) is exactly `distinct` *)
+Theorem C14_compassDirection_returns_iff_distinct p0 p1 :
+  compassDirection_asserts_ok p0 p1 = true <-> distinct p0 p1.
+Proof. exact (compassDirection_returns_iff_distinct p0 p1). Qed.
+Print Assumptions C14_compassDirection_returns_iff_distinct.
+
 Theorem C14_compassDirection_antisym p0 p1 : distinct p0 p1 ->
   compassDirection p1 p0 = compass_flip (compassDirection p0 p1).
 Proof. exact (compassDirection_antisym p0 p1). Qed.
